@@ -37,14 +37,23 @@ func runInChild(domain string, c Case, onFail func(c Case, kind string)) {
 	cmd := exec.CommandContext(ctx, os.Args[0], "exec", domain)
 	cmd.Env = append(os.Environ(), "RH_CHILD=1", "GOMAXPROCS=2")
 	cmd.Stdin = bytes.NewReader(append(js, '\n'))
-	var out bytes.Buffer
+	var out, errb bytes.Buffer
 	cmd.Stdout = &out
+	cmd.Stderr = &errb
 	err := cmd.Run()
 	if ctx.Err() != nil {
 		onFail(c, "hang")
 		return
 	}
 	if err != nil {
+		// what the runtime said when the child died (first "fatal error:" / "panic:" line)
+		for _, line := range bytes.Split(errb.Bytes(), []byte("\n")) {
+			if bytes.HasPrefix(line, []byte("fatal error:")) || bytes.HasPrefix(line, []byte("panic:")) ||
+				bytes.HasPrefix(line, []byte("runtime: goroutine stack exceeds")) {
+				c["crash_msg"] = string(line)
+				break
+			}
+		}
 		onFail(c, "panic")
 		return
 	}
